@@ -1,11 +1,17 @@
-//! Generator of gluon programs (text, one-line style with explicit `in`; the multi-line
-//! styles are obtained by formatting and by perturbing the token gaps).
+//! Generator of gluon programs as text. Layout style (default): multi-line with the offside
+//! rule (`let … \n body` aligned), every construct remembers its start column; `in` style:
+//! the same programs on one line with explicit `in`.
 use gv::rng::Rng;
 
 pub struct Gen<'a> {
     pub rng: &'a mut Rng,
     pub long_names: bool,
+    /// one-line style with explicit `in`
+    pub use_in: bool,
+    /// include an operator that has no fixity in scope
+    pub undefined_op: bool,
     pub used: std::collections::BTreeSet<&'static str>,
+    pub s: String,
 }
 
 const IDS: &[&str] = &["x", "y", "z", "f", "g", "acc", "value", "xs"];
@@ -16,15 +22,45 @@ const LONG_IDS: &[&str] = &[
     "intermediate_value_number_one",
 ];
 const CTORS: &[&str] = &["Some", "None", "Cons", "Nil", "Ok", "Err"];
-const OPS: &[&str] = &["+", "-", "*", "/", "==", "<", "&&", "||", "|>", "<|", "++", "<>", ">>=", "<<"];
+/// operators that have a fixity with the implicit prelude
+const OPS: &[&str] = &["+", "-", "*", "/", "==", "<", "<=", "&&", "||", "++", "<|"];
 const LITS: &[&str] = &[
     "1", "42", "0", "3.14", "1.0e-3", "\"s\"", "\"a\\\"q\\n\"", "'c'", "'\\n'", "10b", "r\"raw\\x\"",
-    "r#\"a\"b\"#", "\"\"", "0xFF", "1_000",
+    "r#\"a\"b\"#", "\"\"", "0xFF", "1_000", "\"// not a comment\"", "\"/* nor this */\"",
 ];
 
 impl<'a> Gen<'a> {
-    pub fn new(rng: &'a mut Rng, long_names: bool) -> Self {
-        Gen { rng, long_names, used: Default::default() }
+    pub fn new(rng: &'a mut Rng, long_names: bool, use_in: bool, undefined_op: bool) -> Self {
+        Gen { rng, long_names, use_in, undefined_op, used: Default::default(), s: String::new() }
+    }
+    fn col(&self) -> usize {
+        let ls = self.s.rfind('\n').map_or(0, |i| i + 1);
+        self.s[ls..].chars().count()
+    }
+    pub fn w_nl(&mut self) {
+        self.s.push('\n');
+    }
+    fn w(&mut self, t: &str) {
+        self.s.push_str(t);
+    }
+    /// line break to column `ind` (a space in `in` style)
+    fn nl(&mut self, ind: usize) {
+        if self.use_in {
+            self.s.push(' ');
+        } else {
+            self.s.push('\n');
+            for _ in 0..ind {
+                self.s.push(' ');
+            }
+        }
+    }
+    /// separator between a binding and its body
+    fn body_sep(&mut self, ind: usize) {
+        if self.use_in {
+            self.s.push_str(" in ");
+        } else {
+            self.nl(ind);
+        }
     }
     fn id(&mut self) -> String {
         if self.long_names && self.rng.chance(1, 2) {
@@ -37,8 +73,16 @@ impl<'a> Gen<'a> {
         self.used.insert("lit");
         self.rng.pick(LITS).to_string()
     }
-    fn atom(&mut self) -> String {
-        match self.rng.below(8) {
+    fn op(&mut self) -> String {
+        if self.undefined_op && self.rng.chance(1, 3) {
+            self.used.insert("undefined-op");
+            "<+>".to_string()
+        } else {
+            self.rng.pick(OPS).to_string()
+        }
+    }
+    fn atom(&mut self) {
+        let t = match self.rng.below(8) {
             0 | 1 | 2 => self.id(),
             3 | 4 => self.lit(),
             5 => {
@@ -50,7 +94,8 @@ impl<'a> Gen<'a> {
                 self.used.insert("opref");
                 format!("({})", self.rng.pick(OPS))
             }
-        }
+        };
+        self.w(&t);
     }
     fn pat(&mut self, d: u32) -> String {
         match self.rng.below(if d == 0 { 3 } else { 9 }) {
@@ -100,9 +145,7 @@ impl<'a> Gen<'a> {
     }
     fn pat_atom(&mut self, d: u32) -> String {
         let p = self.pat(d);
-        if p.contains(' ') && !p.starts_with('{') && !p.starts_with('(') {
-            format!("({})", p)
-        } else if p.contains('@') {
+        if (p.contains(' ') && !p.starts_with('{') && !p.starts_with('(')) || p.contains('@') {
             format!("({})", p)
         } else {
             p
@@ -138,7 +181,7 @@ impl<'a> Gen<'a> {
         }
     }
     /// an expression that is closed on the right (safe as operand / argument / field value)
-    fn closed(&mut self, d: u32) -> String {
+    fn closed(&mut self, d: u32) {
         if d == 0 {
             return self.atom();
         }
@@ -148,157 +191,262 @@ impl<'a> Gen<'a> {
                 self.used.insert("record");
                 let n = self.rng.below(4);
                 if n == 0 {
-                    return "{ }".into();
+                    return self.w("{ }");
                 }
-                let mut fs: Vec<String> = (0..n)
-                    .map(|_| {
-                        if self.rng.chance(1, 4) {
-                            self.id()
-                        } else {
-                            format!("{} = {}", self.id(), self.operand(d - 1))
-                        }
-                    })
-                    .collect();
+                self.w("{ ");
+                for i in 0..n {
+                    if i > 0 {
+                        self.w(", ");
+                    }
+                    let f = self.id();
+                    self.w(&f);
+                    if !self.rng.chance(1, 4) {
+                        self.w(" = ");
+                        self.operand(d - 1);
+                    }
+                }
                 if self.rng.chance(1, 6) {
                     self.used.insert("record-base");
                     let b = self.id();
-                    fs.push(format!("..{}", b));
+                    self.w(&format!(", ..{}", b));
                 }
-                format!("{{ {} }}", fs.join(", "))
+                self.w(" }");
             }
             3 => {
                 self.used.insert("array");
                 let n = self.rng.below(4);
-                let es: Vec<String> = (0..n).map(|_| self.operand(d - 1)).collect();
-                format!("[{}]", es.join(", "))
+                self.w("[");
+                for i in 0..n {
+                    if i > 0 {
+                        self.w(", ");
+                    }
+                    self.operand(d - 1);
+                }
+                self.w("]");
             }
             4 => {
                 self.used.insert("tuple");
                 let n = self.rng.below(3);
                 if n == 0 {
-                    return "()".into();
+                    return self.w("()");
                 }
-                let es: Vec<String> = (0..n + 1).map(|_| self.operand(d - 1)).collect();
-                format!("({})", es.join(", "))
+                self.w("(");
+                for i in 0..n + 1 {
+                    if i > 0 {
+                        self.w(", ");
+                    }
+                    self.operand(d - 1);
+                }
+                self.w(")");
             }
             5 => {
-                self.used.insert("paren");
-                format!("({})", self.expr(d - 1))
-            }
-            6 => {
                 self.used.insert("annot");
-                format!("({} : {})", self.operand(d - 1), self.typ(1))
+                self.w("(");
+                self.operand(d - 1);
+                let t = self.typ(1);
+                self.w(&format!(" : {})", t));
             }
-            _ => format!("({})", self.expr(d - 1)),
+            _ => {
+                self.used.insert("paren");
+                self.w("(");
+                self.expr(d - 1);
+                self.w(")");
+            }
         }
     }
     /// application / infix chain of closed things
-    fn operand(&mut self, d: u32) -> String {
+    fn operand(&mut self, d: u32) {
         match self.rng.below(6) {
             0 | 1 if d > 0 => {
                 self.used.insert("app");
                 let n = self.rng.range(1, 3);
-                let mut s = if self.rng.chance(3, 4) { self.id() } else { self.closed(d - 1) };
-                for _ in 0..n {
-                    s.push(' ');
-                    s.push_str(&self.closed(d.saturating_sub(1)));
+                if self.rng.chance(3, 4) {
+                    let f = self.id();
+                    self.w(&f);
+                } else {
+                    self.closed(d - 1);
                 }
-                s
+                for _ in 0..n {
+                    self.w(" ");
+                    self.closed(d.saturating_sub(1));
+                }
             }
             2 | 3 if d > 0 => {
                 self.used.insert("infix");
                 let n = self.rng.range(1, 4);
-                let mut s = self.app_or_closed(d - 1);
+                self.app_or_closed(d - 1);
                 for _ in 0..n {
-                    s.push(' ');
-                    s.push_str(self.rng.pick(OPS));
-                    s.push(' ');
-                    s.push_str(&self.app_or_closed(d - 1));
+                    let o = self.op();
+                    self.w(&format!(" {} ", o));
+                    self.app_or_closed(d - 1);
                 }
-                s
             }
             _ => self.closed(d),
         }
     }
-    fn app_or_closed(&mut self, d: u32) -> String {
+    fn app_or_closed(&mut self, d: u32) {
         if d > 0 && self.rng.chance(1, 3) {
             let f = self.id();
-            format!("{} {}", f, self.closed(d - 1))
+            self.w(&format!("{} ", f));
+            self.closed(d - 1);
         } else {
-            self.closed(d)
+            self.closed(d);
         }
     }
-    /// any expression; open on the right (let/if/match/lambda extend as far as possible)
-    pub fn expr(&mut self, d: u32) -> String {
+    /// right-hand side of a binding / alternative: inline if small, otherwise on its own lines
+    fn rhs(&mut self, d: u32, ind: usize) {
+        if d == 0 || self.rng.chance(1, 2) {
+            self.w(" ");
+            self.operand(d);
+        } else {
+            self.nl(ind + 4);
+            if self.use_in {
+                // an open expression in a non-tail position needs parentheses on one line
+                self.w("(");
+                self.expr(d);
+                self.w(")");
+            } else {
+                self.expr(d);
+            }
+        }
+    }
+    /// any expression; starts at the current column
+    pub fn expr(&mut self, d: u32) {
+        let ind = self.col();
         if d == 0 {
             return self.operand(0);
         }
-        match self.rng.below(12) {
-            0 | 1 => {
+        match self.rng.below(13) {
+            0 | 1 | 2 => {
                 self.used.insert("let");
                 let n = self.rng.below(3);
-                let args: String = (0..n).map(|_| format!(" {}", self.id())).collect();
                 let name = if n == 0 && self.rng.chance(1, 3) { self.pat_atom(1) } else { self.id() };
-                let ann = if self.rng.chance(1, 5) {
+                self.w(&format!("let {}", name));
+                for _ in 0..n {
+                    let a = self.id();
+                    self.w(&format!(" {}", a));
+                }
+                if self.rng.chance(1, 5) {
                     self.used.insert("let-annot");
-                    format!(" : {}", self.typ(2))
-                } else {
-                    String::new()
-                };
-                format!("let {}{}{} = {} in {}", name, args, ann, self.expr(d - 1), self.expr(d - 1))
-            }
-            2 => {
-                self.used.insert("lambda");
-                let n = self.rng.range(1, 3);
-                let args: Vec<String> = (0..n).map(|_| self.id()).collect();
-                format!("\\{} -> {}", args.join(" "), self.expr(d - 1))
+                    let t = self.typ(2);
+                    self.w(&format!(" : {}", t));
+                }
+                self.w(" =");
+                self.rhs(d - 1, ind);
+                self.body_sep(ind);
+                self.expr(d - 1);
             }
             3 => {
-                self.used.insert("if");
-                let c = self.operand(d - 1);
-                let t = self.operand(d - 1);
-                if self.rng.chance(1, 4) {
-                    self.used.insert("else-if");
-                    format!("if {} then {} else if {} then {} else {}", c, t, self.operand(d - 1), self.operand(d - 1), self.expr(d - 1))
+                self.used.insert("lambda");
+                let n = self.rng.range(1, 3);
+                self.w("\\");
+                for _ in 0..n {
+                    let a = self.id();
+                    self.w(&format!("{} ", a));
+                }
+                self.w("->");
+                if self.rng.chance(1, 2) {
+                    self.w(" ");
+                    self.operand(d - 1);
                 } else {
-                    format!("if {} then {} else {}", c, t, self.expr(d - 1))
+                    self.nl(ind + 4);
+                    self.expr(d - 1);
                 }
             }
-            4 | 5 => {
+            4 => {
+                self.used.insert("if");
+                self.w("if ");
+                self.operand(d - 1);
+                if self.rng.chance(1, 2) {
+                    self.w(" then ");
+                    self.operand(d - 1);
+                    if self.rng.chance(1, 4) {
+                        self.used.insert("else-if");
+                        self.w(" else if ");
+                        self.operand(d - 1);
+                        self.w(" then ");
+                        self.operand(d - 1);
+                    }
+                    self.w(" else ");
+                    self.operand(d - 1);
+                } else {
+                    self.w(" then");
+                    self.nl(ind + 4);
+                    if self.use_in {
+                        self.operand(d - 1);
+                    } else {
+                        self.expr(d - 1);
+                    }
+                    self.nl(ind);
+                    self.w("else");
+                    self.nl(ind + 4);
+                    self.expr(d - 1);
+                }
+            }
+            5 | 6 => {
                 self.used.insert("match");
                 let n = self.rng.range(1, 3);
-                let mut s = format!("match {} with", self.operand(d - 1));
+                self.w("match ");
+                self.operand(d - 1);
+                self.w(" with");
                 for i in 0..n {
-                    let body = if i + 1 == n { self.expr(d - 1) } else { self.operand(d - 1) };
-                    s.push_str(&format!(" | {} -> {}", self.pat(2), body));
+                    self.nl(ind);
+                    let p = self.pat(2);
+                    self.w(&format!("| {} ->", p));
+                    if self.use_in && i + 1 < n {
+                        self.w(" ");
+                        self.operand(d - 1);
+                    } else if self.use_in {
+                        self.w(" ");
+                        self.expr(d - 1);
+                    } else {
+                        self.rhs(d - 1, ind);
+                    }
                 }
-                s
-            }
-            6 => {
-                self.used.insert("type-alias");
-                let t = self.typ(2);
-                format!("type {} {}= {} in {}", self.rng.pick(&["T", "Rec", "Alias"]), if self.rng.chance(1, 2) { "a " } else { "" }, t, self.expr(d - 1))
             }
             7 => {
-                self.used.insert("type-variant");
-                let n = self.rng.range(1, 3);
-                let mut s = format!("type {} {}=", self.rng.pick(&["V", "Tree"]), if self.rng.chance(1, 2) { "a " } else { "" });
-                for i in 0..n {
-                    let k = self.rng.below(3);
-                    let args: String = (0..k).map(|_| format!(" {}", self.typ_atom(1))).collect();
-                    s.push_str(&format!(" | {}{}", ["A", "B", "C"][i as usize], args));
-                }
-                format!("{} in {}", s, self.expr(d - 1))
+                self.used.insert("type-alias");
+                let t = self.typ(2);
+                let name = self.rng.pick(&["T", "Rec", "Alias"]).to_string();
+                let par = if self.rng.chance(1, 2) { "a " } else { "" };
+                self.w(&format!("type {} {}= {}", name, par, t));
+                self.body_sep(ind);
+                self.expr(d - 1);
             }
             8 => {
+                self.used.insert("type-variant");
+                let n = self.rng.range(1, 3);
+                let name = self.rng.pick(&["V", "Tree"]).to_string();
+                let par = if self.rng.chance(1, 2) { "a " } else { "" };
+                self.w(&format!("type {} {}=", name, par));
+                let multi = !self.use_in && self.rng.chance(1, 2);
+                for i in 0..n {
+                    if multi {
+                        self.nl(ind + 4);
+                    } else {
+                        self.w(" ");
+                    }
+                    let k = self.rng.below(3);
+                    let args: String = (0..k).map(|_| format!(" {}", self.typ_atom(1))).collect();
+                    self.w(&format!("| {}{}", ["A", "B", "C"][i as usize], args));
+                }
+                self.body_sep(ind);
+                self.expr(d - 1);
+            }
+            9 => {
                 self.used.insert("rec-let");
-                format!(
-                    "rec let {} {} = {} in {}",
-                    self.id(),
-                    self.id(),
-                    self.expr(d - 1),
-                    self.expr(d - 1)
-                )
+                let f = self.id();
+                let a = self.id();
+                self.w(&format!("rec let {} {} =", f, a));
+                self.rhs(d - 1, ind);
+                self.body_sep(ind);
+                self.expr(d - 1);
+            }
+            10 if !self.use_in => {
+                self.used.insert("block");
+                self.operand(d - 1);
+                self.nl(ind);
+                self.operand(d - 1);
             }
             _ => self.operand(d),
         }
